@@ -37,8 +37,14 @@ class C03(Prop):
                   "history puts on it (C03_boundary: a rule is shown the replayed history and every later token, and acts "
                   "on a token -- token if PROPAGATE, then Term RECOVERED if TERMINATE -- iff its boundary tag multiset is "
                   "covered by the tags shown to it, rules in order, the port keeping the token iff no covered self-rule "
-                  "matched; a covered rule stays covered and acts on every later token); nothing follows a termination "
-                  "token unless it was put after it. Unbounded histories, consumers, rules. The model is tied to /repo by running the real "
+                  "matched; a covered rule stays covered and acts on every later token). SCOPE of 'no consumer observes "
+                  "tokens after a termination token': NOT a theorem. Proved only: a token seen after a termination token "
+                  "entered the port's history after it (C03_after_term_partial), hence nothing follows a termination "
+                  "token on a plain port whose producers put nothing after it (C03_term_last_partial). For an "
+                  "inter-workflow port the clause is REFUTED (C03_inter_term_then_token_refuted): a complete TERMINATE "
+                  "rule re-fires on every later token, so the port ITSELF puts tokens and terminations after a "
+                  "termination token on the boundary target although no producer ever put a termination token; the "
+                  "check finds it on the real code and lists it as a known finding. Unbounded histories, consumers, rules. The model is tied to /repo by running the real "
                   "classes and the model on generated operation histories (also under a shuffling event loop).")
     LEVEL_NOTE = ("Trusted: Coq kernel + vm_compute; hand-written model Port/Model.v (tied to the code by the correspondence "
                   "run only); asyncio.Queue/event loop internals; boundary targets are plain Ports or the port itself "
@@ -212,27 +218,34 @@ class C03(Prop):
         """Histories the property text prescribes: after each operation, the stream E[k] of every port."""
         n = case["nports"]
         E = [[] for _ in range(n)]
+        M = [[] for _ in range(n)]   # who put each entry: ("drv" | "rule", index of the operation)
         rules = []
         snaps = []
+        cur = [0]
 
         def show(rule, tok):
             rule["seen"][tok[2]] += 1
             if all(rule["seen"][g] >= m for g, m in rule["need"].items()):  # boundary tag set complete
                 if rule["P"]:
                     E[rule["tgt"]].append(tok)
+                    M[rule["tgt"]].append(("rule", cur[0]))
                 if rule["T"]:
                     E[rule["tgt"]].append(["T", 9])
+                    M[rule["tgt"]].append(("rule", cur[0]))
                 return True
             return False
 
-        for o in case["ops"]:
+        for oi, o in enumerate(case["ops"]):
+            cur[0] = oi
             if o[0] == "put":
                 k, t = o[1], o[2]
                 if k != 0 or case["f"] == "plain" or t[0] == "T":
                     E[k].append(t)
+                    M[k].append(("drv", oi))
                 elif case["f"] == "filter":
                     if _admit(case["filter"], t):
                         E[0].append(t)
+                        M[0].append(("drv", oi))
                 else:
                     hit_self = False
                     for r in rules:
@@ -240,12 +253,14 @@ class C03(Prop):
                             hit_self = True
                     if not hit_self:
                         E[0].append(t)
+                        M[0].append(("drv", oi))
             elif o[0] == "add" and case["f"] == "inter":
                 r = {"tgt": o[1], "need": Counter(o[2]), "seen": Counter(), "P": o[3], "T": o[4]}
                 rules.append(r)
                 for t in [x for x in list(E[0]) if x[0] != "T"]:
                     show(r, t)
             snaps.append([len(e) for e in E])
+        self._meta = M
         return E, snaps
 
     def oracle(self, case, obs):
@@ -276,6 +291,23 @@ class C03(Prop):
         for k in range(case["nports"]):
             if obs["tls"][k] != E[k]:
                 return ("history", f"port {k} token_list {obs['tls'][k]} differs from the prescribed stream {E[k]}")
+        # "no consumer observes tokens after a termination token": judged on every port, boundary targets included.
+        # Exempt (producer discipline, outside a port's power): the first termination token was put by a producer, or a
+        # producer put on this port after it.  Flagged: the termination token was put by a boundary rule and everything
+        # that follows it on this port was put by boundary rules too.
+        M = self._meta
+        for k in range(case["nports"]):
+            pos = next((i for i, t in enumerate(E[k]) if t[0] == "T"), None)
+            if pos is None or pos + 1 >= len(E[k]) or M[k][pos][0] != "rule":
+                continue
+            if any(o[0] == "put" and o[1] == k and oi > M[k][pos][1] for oi, o in enumerate(case["ops"])):
+                continue
+            for (kk, c), seq in got.items():
+                if kk == k and len(seq) > pos + 1:
+                    return ("token-after-termination",
+                            f"consumer {c} of port {k} received {seq[pos + 1:]} after the termination token at position "
+                            f"{pos} of {seq}; that termination token and everything after it were put by boundary rules, "
+                            f"no producer put on port {k} after it")
         return None
 
     # ---------------------------------------------------------------- model side
@@ -308,6 +340,9 @@ class C03(Prop):
         return "put" in kinds and "get" in kinds
 
     def signature(self, c, o, clause):
+        if clause == "token-after-termination":
+            # the oracle flags it only when a TERMINATE rule that is complete manufactured the termination token
+            return f"{c['f']}/token-after-termination/completed-terminate-rule"
         return f"{c['f']}/{clause}"
 
     def shrink(self, c):
